@@ -615,7 +615,7 @@ pub struct ArrayMonitor {
 impl super::hist::Monitor for ArrayMonitor {
     fn after(&mut self, h: &crate::history::Hist, _pre: &crate::history::Snap, _post: &crate::history::Snap, op: &crate::history::Op, r: &crate::history::OpResult, l: &mut Local) -> Result<(), String> {
         use crate::history::{Did, Op};
-        if r.did != Did::Ok || !matches!(op.effective(), Op::Increase { .. } | Op::Decrease { .. } | Op::Reposition { .. } | Op::Swap { .. } | Op::SwapBack { .. } | Op::SwapExact { .. }) {
+        if r.did != Did::Ok || !matches!(op.effective(), Op::Increase { .. } | Op::Decrease { .. } | Op::Reposition { .. } | Op::Swap { .. } | Op::SwapBack { .. } | Op::SwapExact { .. } | Op::ReinitArray { .. }) {
             return Ok(());
         }
         let pk = h.w.pools[h.pool].key;
